@@ -183,6 +183,18 @@ Theorem di_domain_challenge_asis_refuted :
 Proof. split; [vm_compute; reflexivity|vm_compute; discriminate]. Qed.
 Print Assumptions di_domain_challenge_asis_refuted.
 
+(* ecdsa-2019 signs the RE-FORMATTED created (whole seconds): two received literals with the same re-formatting - another
+   instant within the same second - give the same signed configuration (known finding di-created-subsecond-not-signed) *)
+Theorem di_created_subsecond_refuted :
+  forall (norm : string -> string) mem ctx m c1 c2,
+    norm c1 = norm c2 ->
+    di_config mem ctx (set_key "created" (JStr c1) m) (norm c1) = di_config mem ctx (set_key "created" (JStr c2) m) (norm c2).
+Proof.
+  intros norm mem ctx m c1 c2 H. rewrite H. unfold di_config.
+  rewrite !(lookup_set_key_other "created") by reflexivity. reflexivity.
+Qed.
+Print Assumptions di_created_subsecond_refuted.
+
 (* ---- STRICT MODE, FULL STATEMENT (validator.mapsHaveSameStructure as repaired).  For every context (dfn: which
         terms it defines; "id" is a keyword alias) and every compaction that, when it succeeds, refuses non-string ids
         and drops exactly the members the context does not define (at every depth): a document (member names unique in
